@@ -13,6 +13,10 @@ indices; `map` yields `f xs[0], f xs[1], …` up to the first failing item and t
 * `mp_result`      — in every terminal state the output is `0 … read-1`, none of them failing; without an error
                      `read = N` (everything `map` yields); with an error it is the error of a failing item (so the
                      output is a prefix of `map`'s, which stops at the first failing item);
+* `mp_err_before_close` — a consumer can only find an `out[i]` closed after `m.err` has been assigned, and what it
+                     then reads is the group's error (the ORDER `m.err = g.Wait()` … `close(out[i])` is an obligation;
+                     `mp_swapped_counterexample`: with the two statements exchanged a run ends with (false, nil)
+                     although `f` failed);
 * `mp_no_deadlock` — every reachable non-terminal state has an enabled step;
 * `mp_terminates`  — a measure strictly decreases on every step, so every schedule is finite
                      (`mp_schedule_bounded`).
@@ -34,7 +38,7 @@ theorem mp_result (c : Cfg) (hn : 0 < c.n) (s : St) (h : Reachable (step c) (ini
     (r = none → s.read = c.N) ∧ (∀ e, r = some e → c.fails e = true ∧ e < c.N ∧ s.read ≤ e) := by
   have I := inv_reachable hn h
   obtain ⟨hrg, hoc, hq⟩ := I.finI r hr
-  obtain ⟨hde, hall⟩ := I.closer hoc
+  obtain ⟨hde, hall, _⟩ := I.closer (I.closed hoc)
   refine ⟨I.out, I.okout, Nat.le_trans I.rle I.wle, ?_, ?_⟩
   · -- no error: everything was dispatched, nothing lost, every lane is empty — so everything was consumed
     intro hrn
@@ -59,6 +63,28 @@ theorem mp_result (c : Cfg) (hn : 0 < c.n) (s : St) (h : Reachable (step c) (ini
     · have := I.okout e hlt; rw [h1] at this; cases this
     · exact hge
 
+/-- The consumer can observe a closed `out[i]` only after `m.err` has been recorded: whenever the `out` channels
+are closed, `m.err = g.Wait()` has been executed, every goroutine of the group has returned, and `m.err` holds the
+group's error — so the value `Next()` returns with `false` is that error (`mp_result`). -/
+theorem mp_err_before_close (c : Cfg) (hn : 0 < c.n) (s : St) (h : Reachable (step c) (init c) s)
+    (hc : s.outClosed = true) : s.stored = true ∧ s.merr = s.gerr ∧ s.disp = D.exited ∧ allExited s := by
+  have I := inv_reachable hn h
+  obtain ⟨h1, h2, h3⟩ := I.closer (I.closed hc)
+  exact ⟨I.closed hc, h3, h1, h2⟩
+
+/-- … and a consumer that has finished has returned exactly that error. -/
+theorem mp_fin_is_group_error (c : Cfg) (hn : 0 < c.n) (s : St) (h : Reachable (step c) (init c) s)
+    (r : Option Nat) (hr : s.fin = some r) : r = s.gerr :=
+  ((inv_reachable hn h).finI r hr).1
+
+/-- The protocol with the two statements exchanged (`err := g.Wait(); close every out[i]; m.err = err`,
+`MapParallel.stepSwapped`): 2 cores, 1 item, `f` fails on it — the consumer, woken by the close of `out[0]`, reads
+`m.err` before it is assigned and reports success: `Next()` = (false, nil) although the group's error is set. -/
+theorem mp_swapped_counterexample :
+    ∃ s, Reachable (stepSwapped ⟨2, 1, fun _ => true⟩) (init ⟨2, 1, fun _ => true⟩) s ∧
+      s.gerr = some 0 ∧ s.fin = some none ∧ s.out = [] :=
+  ⟨_, Reachable.of_runSched [0, 0, 0, 0, 0, 0, 0, 0, 1] _ _ .refl rfl, by decide⟩
+
 theorem mp_no_deadlock (c : Cfg) (hn : 0 < c.n) (s : St) (h : Reachable (step c) (init c) s)
     (ht : terminal s = false) : step c s ≠ [] := by
   have I := inv_reachable hn h
@@ -68,9 +94,9 @@ theorem mp_no_deadlock (c : Cfg) (hn : 0 < c.n) (s : St) (h : Reachable (step c)
     obtain ⟨s', hs'⟩ := this; intro e; rw [e] at hs'; cases hs'
   have dstep : ∀ s', s' ∈ dispStep c s → s' ∈ step c s := fun s' hs' => mem_step.mpr ⟨hfin, Or.inl hs'⟩
   have cstep : ∀ s', s' ∈ consumerStep c s → s' ∈ step c s := fun s' hs' =>
-    mem_step.mpr ⟨hfin, Or.inr (Or.inr (Or.inl hs'))⟩
+    mem_step.mpr ⟨hfin, Or.inr (Or.inr (Or.inr (Or.inl hs')))⟩
   have wstep : ∀ (j : Nat) (l : Lane) (s' : St), s.lanes[j]? = some l → s' ∈ workerStep c s j l → s' ∈ step c s :=
-    fun j l s' hl hs' => mem_step.mpr ⟨hfin, Or.inr (Or.inr (Or.inr ⟨j, l, hl, hs'⟩))⟩
+    fun j l s' hl hs' => mem_step.mpr ⟨hfin, Or.inr (Or.inr (Or.inr (Or.inr ⟨j, l, hl, hs'⟩)))⟩
   -- the dispatcher can move unless it is in its select with nothing cancelled, or gone
   by_cases hdc : s.disp = D.closing
   · exact ⟨_, dstep _ (by simp [dispStep, hdc]; rfl)⟩
@@ -108,8 +134,10 @@ theorem mp_no_deadlock (c : Cfg) (hn : 0 < c.n) (s : St) (h : Reachable (step c)
   · exact ⟨_, cstep _ (by simp [consumerStep, hl, hoq, hoc]; rfl)⟩
   have hoc : s.outClosed = false := by simpa using hoc
   -- when everybody has left, the closer can move
-  have closerStep : s.disp = D.exited → allExited s → ∃ s', s' ∈ step c s := fun hd ha =>
-    ⟨_, mem_step.mpr ⟨hfin, Or.inr (Or.inl ⟨hd, ha, hoc, rfl⟩)⟩⟩
+  have closerStep : s.disp = D.exited → allExited s → ∃ s', s' ∈ step c s := fun hd ha => by
+    cases hst : s.stored with
+    | false => exact ⟨_, mem_step.mpr ⟨hfin, Or.inr (Or.inl ⟨hd, ha, hst, rfl⟩)⟩⟩
+    | true => exact ⟨_, mem_step.mpr ⟨hfin, Or.inr (Or.inr (Or.inl ⟨hst, hoc, rfl⟩))⟩⟩
   cases hg : s.gerr with
   | some e =>
     -- cancelled: the dispatcher has gone; every worker that has not left can move
@@ -249,11 +277,11 @@ end Spec
 /-- 2 cores, 3 items, item 1 fails: a run that ends with the error after the consumer got item 0 -/
 def exCfg : Cfg := { n := 2, N := 3, fails := fun k => k == 1 }
 example : ∃ s, Reachable (step exCfg) (init exCfg) s ∧ s.fin = some (some 1) ∧ s.out = [0] :=
-  ⟨_, Reachable.of_runSched (List.replicate 18 0) _ _ .refl rfl, by decide⟩
+  ⟨_, Reachable.of_runSched (List.replicate 19 0) _ _ .refl rfl, by decide⟩
 /-- … and 3 cores, 4 items, nothing fails: everything arrives in order -/
 def exCfg2 : Cfg := { n := 3, N := 4, fails := fun _ => false }
 example : ∃ s, Reachable (step exCfg2) (init exCfg2) s ∧ s.fin = some none ∧ s.out = [0, 1, 2, 3] :=
-  ⟨_, Reachable.of_runSched (List.replicate 27 0) _ _ .refl rfl, by decide⟩
+  ⟨_, Reachable.of_runSched (List.replicate 28 0) _ _ .refl rfl, by decide⟩
 example : terminal (init exCfg) = false ∧ 0 < exCfg.n := by decide
 
 end B6.Props.C25
